@@ -129,7 +129,7 @@ func TestC08Recovery(t *testing.T) {
 			if ps := client.VerifPanics(); len(ps) > 0 {
 				s.fail("client goroutine panicked: %s: %s", ps[0].Where, ps[0].Value)
 			}
-			if !c.VerifTryLock() {
+			if !clientLockFree(c) {
 				s.fail("client mutex held after a sync round")
 			}
 			collect(0)
